@@ -492,6 +492,21 @@ func (u *Unit) mapDelete(st *State, mv, kv Val, pos token.Pos) {
 func (u *Unit) execRange(st *State, fr *Frame, in *ssa.Range) {
 	xv := u.val(st, in.X)
 	fr.regs[in] = Val{T: in.Type(), Terms: []Term{"0"}, Inner: &xv}
+	if isString(in.X.Type()) {
+		st.setIter(in, "0")
+		if st.discover != nil {
+			st.discover.iters[in] = true
+		}
+	}
+}
+
+func (st *State) setIter(r *ssa.Range, pos Term) {
+	n := make(map[*ssa.Range]Term, len(st.iters)+1)
+	for k, v := range st.iters {
+		n[k] = v
+	}
+	n[r] = pos
+	st.iters = n
 }
 
 func (u *Unit) execNext(st *State, fr *Frame, in *ssa.Next) {
@@ -502,7 +517,29 @@ func (u *Unit) execNext(st *State, fr *Frame, in *ssa.Next) {
 	v := u.freshVal(st, "nxt_v", tt.At(2).Type())
 	if it.Inner != nil {
 		x := *it.Inner
-		if in.IsString {
+		if rg, isR := in.Iter.(*ssa.Range); in.IsString && isR && st.iters[rg] != "" {
+			// sequential iteration over the runes of the string: position pos, rune v, width w
+			pos, sx := st.iters[rg], x.Terms[0]
+			w := u.fresh(st, "rw", "Int")
+			st.assume(fmt.Sprintf("(= %s (< %s (slen %s)))", ok.Terms[0], pos, sx))
+			if isInteger(tt.At(1).Type()) {
+				st.assume(fmt.Sprintf("(=> %s (= %s %s))", ok.Terms[0], k.Terms[0], pos))
+			}
+			vt := v.Terms[0]
+			if !isInteger(tt.At(2).Type()) {
+				vt = u.fresh(st, "rune", "Int")
+			}
+			st.assume(fmt.Sprintf("(=> %s (and (<= 0 %s) (<= 1 %s) (<= %s 4) (<= (+ %s %s) (slen %s))))", ok.Terms[0], vt, w, w, pos, w, sx))
+			st.assume(fmt.Sprintf("(=> (and %s (< %s 128)) (and (= %s 1) (= %s (sat %s %s))))", ok.Terms[0], vt, w, vt, sx, pos))
+			v.Terms[0] = vt
+			// newline prefix count: only the one-byte rune 10 is a newline
+			st.assume(fmt.Sprintf("(=> %s (= (nlp %s (+ %s %s)) (+ (nlp %s %s) (ite (= %s 10) 1 0))))", ok.Terms[0], sx, pos, w, sx, pos, vt))
+			np := u.define(st, "itpos", "Int", fmt.Sprintf("(ite %s (+ %s %s) %s)", ok.Terms[0], pos, w, pos))
+			st.setIter(rg, np)
+			if st.discover != nil {
+				st.discover.iters[rg] = true
+			}
+		} else if in.IsString {
 			st.assume(fmt.Sprintf("(=> %s (and (<= 0 %s) (< %s (slen %s)) (<= 0 %s)))", ok.Terms[0], k.Terms[0], k.Terms[0], x.Terms[0], v.Terms[0]))
 			st.assume(fmt.Sprintf("(=> (= (slen %s) 0) (not %s))", x.Terms[0], ok.Terms[0]))
 		} else if m, _, mok := u.mapKV(x.T); mok && len(k.Terms) == 1 {
